@@ -395,7 +395,7 @@ func libCompileSearchTwice(expr string, doc interface{}) (first, again libOut) {
 		}
 		// and documents of the same shape with other values (the other zero, numbers that
 		// print in exponent form, other strings; arrays reversed)
-		for _, mode := range []int{3, 4} {
+		for _, mode := range []int{3, 4, 5} {
 			if p := safely(func() { _, _ = c.Search(varyDoc(doc, mode)) }); p != nil {
 				again.Panic = p
 				return
@@ -406,7 +406,7 @@ func libCompileSearchTwice(expr string, doc interface{}) (first, again libOut) {
 		// a second compiled expression that sees the same-shape documents BEFORE the document
 		// itself (whatever the first evaluation of a value leaves behind is then left by another
 		// value): its answer is the one reported when it differs
-		for _, mode := range []int{3, 4} {
+		for _, mode := range []int{3, 4, 5} {
 			c2, err := jp.Compile(expr)
 			if err != nil {
 				break
